@@ -18,7 +18,7 @@ import ast
 from ..cfg import CFG
 from ..match import calls, expected_term, is_noise_stmt, returns, term_of
 from ..model import own_nodes, parents
-from ..terms import show
+from ..terms import show, walk_term
 from .common import CR, field_count_gate, streaming_loop
 
 EXPLANATION = ('CFG rules over estimate_importances_minibatches: guard normal forms (R14) for row selection, validity, batch trigger and tail; must-pass-through with order (R1) from the batch call '
@@ -331,6 +331,34 @@ def aggregator(repo, chk, fn, acc):
             forms.append(E(f"{frame}.groupby(['FeatureA', 'FeatureB']{ai})['Score'].median()"))
             forms.append(E(f"{frame}.groupby(['FeatureA', 'FeatureB']{ai}).Score.median()"))
             forms.append(E(f"{frame}.groupby(['FeatureA', 'FeatureB']{ai}).agg('median')"))
+    # the aggregation may only be skipped (None returned) for an empty list of triplets: decided on the paths of the helper
+    from ..match import run_paths
+    gps = run_paths(g, None, None, max_forks=3)
+    if gps:
+        frame_t = E(f"pandas.DataFrame({gp}, columns=['FeatureA', 'FeatureB', 'Score'])")
+        ln = lambda x: ('call', ('name', 'len'), (x,), ())
+        idx_t = ('attr', frame_t, 'index')
+        empt_true = [('attr', frame_t, 'empty'), ('cmp', '==', ln(frame_t), ('num', 0)), ('cmp', '==', ln(idx_t), ('num', 0)), ('cmp', '==', ('num', 0), ln(idx_t)), ('cmp', '==', ('num', 0), ln(frame_t)), ('cmp', '==', ln(('name', gp)), ('num', 0)), ('not', ('name', gp)), ('cmp', '==', ('num', 0), ln(('name', gp)))]
+        empt_false = [('name', gp), ln(('name', gp)), ln(frame_t), ('cmp', '<', ('num', 0), ln(('name', gp))), ('cmp', '!=', ln(('name', gp)), ('num', 0))]
+        any_agg = False
+        for _a, r_ in gps:
+            if r_.unknown is not None or r_.returned is None:
+                continue
+            is_none = isinstance(r_.returned, ast.Constant) and r_.returned.value is None
+            if not is_none:
+                any_agg = True
+                continue
+            est = any((v and term_of(g, t, inline=True) in empt_true) or (not v and term_of(g, t, inline=True) in empt_false) for t, v in r_.assumed)
+            about_input = [t for t, v in r_.assumed if any(x in (('name', gp), frame_t) for x in walk_term(term_of(g, t, inline=True)))]
+            if not est and about_input:
+                chk.unsure('C08.6f', 'R14', g.site(about_input[0]), ast.unparse(about_input[0])[:80], 'the aggregation is skipped under a test of the triplets that is not one of the recognised emptiness tests')
+            elif not est:
+                chk.bad('C08.6f', 'R14', g.site(r_.returned) if hasattr(r_.returned, 'lineno') else g.site(), ', '.join(f'{ast.unparse(t)[:40]} is {v}' for t, v in r_.assumed) or '(unconditional)',
+                        'the aggregation is skipped (None is returned) on a path that has not established that there are no triplets: scores of evaluated pairs are dropped')
+        if not any_agg and all(r_.unknown is None for _a, r_ in gps):
+            chk.bad('C08.6f', 'R14', g.site(), 'get_grouped_df', 'no path of get_grouped_df returns the aggregated frame')
+        if not any(o.oid == 'C08.6f' for o in chk.obs):
+            chk.ok('C08.6f', 'R14', g.site(), f'{len(gps)} path(s)', 'the aggregation is skipped only for an empty list of triplets')
     ok = len(rets) == 1 and term_of(g, rets[0].value, inline=True) in forms
     chk.expect(ok, 'C08.6d', 'R15', g.site(rets[0]) if rets else g.site(), ast.unparse(rets[0]) if rets else 'return grouped', 'final score of an ordered pair = median of its per-batch scores',
                f"aggregation must be DataFrame(triplets, columns=[FeatureA, FeatureB, Score]).groupby([FeatureA, FeatureB]).median(); found {show(term_of(g, rets[0].value, inline=True))[:200] if rets else None}")
